@@ -14,6 +14,7 @@ import (
 	"os/exec"
 	"runtime"
 	"sort"
+	"strings"
 	"time"
 
 	"github.com/my-cloud/ruthenium/validatornode/application"
@@ -502,6 +503,21 @@ func (w *World) Sync(n *node.Node, now int64, neigh []Neighbour) (*Verdict, Sync
 	d := &defs{}
 	var extra []*ledger.Block
 	resps := []map[string]interface{}{}
+	// an answer that arrived after the node's real-time timeout is, for the node, no answer
+	late := map[string]bool{}
+	for _, l := range n.Log.Snapshot() {
+		if strings.Contains(l, "neighbor's response timeout") {
+			for _, nb := range neigh {
+				if strings.Contains(l, "for target "+nb.Target+":") {
+					if strings.Contains(l, "last neighbor blocks") {
+						late[nb.Target+"/a"] = true
+					} else {
+						late[nb.Target+"/b"] = true
+					}
+				}
+			}
+		}
+	}
 	for i, nb := range neigh {
 		r := map[string]interface{}{"t": nb.Target, "a": nil, "b": nil}
 		for _, s := range rec[i] {
@@ -517,9 +533,13 @@ func (w *World) Sync(n *node.Node, now int64, neigh []Neighbour) (*Verdict, Sync
 				}
 			}
 			if hostLen > 2 && s.h == uint64(hostLen-1) && s.h != 0 {
-				r["a"] = hs
+				if !late[nb.Target+"/a"] {
+					r["a"] = hs
+				}
 			} else if s.h == 0 {
-				r["b"] = hs
+				if !late[nb.Target+"/b"] {
+					r["b"] = hs
+				}
 			}
 		}
 		resps = append(resps, r)
